@@ -109,7 +109,7 @@ func vc13GenKill(t *rapid.T) (k *vc13Kill) {
 	k = &vc13Kill{Scripts: map[string]vc13Script{}}
 	crashFaults := []vc13Kind{
 		vc13ConnClose, vc13S404, vc13S500, vc13Empty, vc13Oversize, vc13OversizeChunked, vc13OversizeClose, vc13ShortCL,
-		vc13ChunkTrunc,
+		vc13ChunkTrunc, vc13Status, vc13Status, vc13Status,
 	}
 	for _, tg := range vc13Targets {
 		sc := vc13Script{Kind: vc13OKNew, Fill: rapid.IntRange(0, 12).Draw(t, "fill-"+tg)}
@@ -122,6 +122,10 @@ func vc13GenKill(t *rapid.T) (k *vc13Kill) {
 			sc.Kind = rapid.SampledFrom(crashFaults).Draw(t, "kind-"+tg)
 			sc.CutPct = rapid.SampledFrom([]int{10, 50, 90}).Draw(t, "cut-"+tg)
 			sc.Over = rapid.SampledFrom([]int{0, 1, 7, vc13MaxSize}).Draw(t, "over-"+tg)
+			if sc.Kind == vc13Status {
+				sc.Code = rapid.SampledFrom(vc13StatusCodes).Draw(t, "code-"+tg)
+				sc.Body = rapid.SampledFrom(vc13StatusBodies).Draw(t, "body-"+tg)
+			}
 			if isHash && vc13IsOversize(sc.Kind) {
 				// The hash lists have a large limit here.
 				sc.Kind = vc13S500
@@ -417,6 +421,8 @@ func TestVerifC13CrashPoints(t *testing.T) {
 		for _, tg := range vc13Targets {
 			sc := k.Scripts[tg]
 			switch {
+			case sc.Kind == vc13Status:
+				classes = append(classes, "round-fault:status", fmt.Sprintf("round-status:%dxx:%s", sc.Code/100, sc.Body))
 			case !vc13IsOK(sc.Kind):
 				classes = append(classes, "round-fault:"+string(sc.Kind))
 			case sc.Flavor != "":
